@@ -303,11 +303,21 @@ fn files(t: &mut Tally, objects: &[(&str, InMemDicomObject)]) {
     use dicom_object::FileMetaTableBuilder;
     for (oname, obj) in objects {
         for (uid, tname, be, explicit) in [("1.2.840.10008.1.2", "Implicit VR LE", false, false), ("1.2.840.10008.1.2.1", "Explicit VR LE", false, true), ("1.2.840.10008.1.2.2", "Explicit VR BE", true, true)] {
+          // file meta group: required attributes only / every optional attribute with an odd-length value / with an even-length value
+          for flavour in 0..3 {
             t.cases += 1;
-            let label = format!("file: {} in {}", oname, tname);
+            let label = format!("file: {} in {}, file meta group {}", oname, tname, ["with the required attributes", "with every optional attribute, odd lengths", "with every optional attribute, even lengths"][flavour]);
             let mut o = obj.clone();
             o.put(DataElement::new(Tag(0x0008, 0x0016), VR::UI, PrimitiveValue::from("1.2.840.10008.5.1.4.1.1.7")));
-            let file = match o.with_meta(FileMetaTableBuilder::new().transfer_syntax(uid)) { Ok(f) => f, Err(e) => { t.fail(format!("{}: no meta table: {}", label, e)); continue; } };
+            let mut builder = FileMetaTableBuilder::new().transfer_syntax(uid);
+            if flavour == 1 {
+                builder = builder.implementation_version_name("ABC").source_application_entity_title("SRC").sending_application_entity_title("S").receiving_application_entity_title("RCV01")
+                    .private_information_creator_uid("1.2.3").private_information(vec![1, 0x80, 0xFF]);
+            } else if flavour == 2 {
+                builder = builder.implementation_version_name("ABCD").source_application_entity_title("SR").sending_application_entity_title("SEND").receiving_application_entity_title("RCV012")
+                    .private_information_creator_uid("1.2.34").private_information(vec![1, 0x80, 0xFF, 0]);
+            }
+            let file = match o.with_meta(builder) { Ok(f) => f, Err(e) => { t.fail(format!("{}: no meta table: {}", label, e)); continue; } };
             let mut bytes = Vec::new();
             if let Err(e) = file.write_all(&mut bytes) { t.fail(format!("{}: writing failed: {}", label, e)); continue; }
             if bytes.len() < 144 || bytes[..128].iter().any(|b| *b != 0) || &bytes[128..132] != b"DICM" { t.fail(format!("{}: no zero preamble + DICM at the start", label)); continue; }
@@ -329,6 +339,7 @@ fn files(t: &mut Tally, objects: &[(&str, InMemDicomObject)]) {
                 Ok(back) => { if let Some(d) = differs(&file, &back, !explicit) { t.fail(format!("{}: read back differs: {}", label, d)); } else if back.meta() != file.meta() { t.fail(format!("{}: meta table read back differs", label)); } }
                 Err(e) => t.fail(format!("{}: the file does not read back: {}", label, e)),
             }
+          }
         }
     }
 }
